@@ -461,3 +461,47 @@ func boundMethod(f *ssa.Function) *ssa.Function {
 	})
 	return m
 }
+
+// flagCASIn finds, in f, the instruction whose value is the outcome of the compare-and-swap on the resize flag:
+// the atomic CAS itself, or the call of a helper of the embedded bookkeeping struct that returns the CAS result.
+func flagCASIn(mm *core.MapModel, f *ssa.Function) ssa.Value {
+	var out ssa.Value
+	core.Instrs(f, func(in ssa.Instruction) {
+		c, ok := in.(*ssa.Call)
+		if !ok {
+			return
+		}
+		if op, addr, ok := core.AtomicOp(c); ok && op == "CAS" && mm.IsFlag(core.Addr(addr)) {
+			out = c
+			return
+		}
+		if cal := core.Callee(c); cal != nil && cal == mm.FlagCAS && returnsFlagCAS(mm, cal) {
+			out = c
+		}
+	})
+	return out
+}
+
+func returnsFlagCAS(mm *core.MapModel, g *ssa.Function) bool {
+	n, ok := 0, true
+	core.Instrs(g, func(in ssa.Instruction) {
+		ret, isRet := in.(*ssa.Return)
+		if !isRet {
+			return
+		}
+		n++
+		if len(ret.Results) != 1 {
+			ok = false
+			return
+		}
+		c, isCall := ret.Results[0].(*ssa.Call)
+		if !isCall {
+			ok = false
+			return
+		}
+		if op, addr, isAt := core.AtomicOp(c); !isAt || op != "CAS" || !mm.IsFlag(core.Addr(addr)) {
+			ok = false
+		}
+	})
+	return ok && n > 0
+}
